@@ -223,6 +223,13 @@ class Check(BaseCheck):
                         if not (np.array_equal(s["t"], mt) and s["v"].shape == mv.shape and np.allclose(s["v"], mv, equal_nan=True) and s["sym"] == msym and caller_ok):
                             fails.append(core.Failure("correspondence", "tet history vs model", "%s after step %d of %s: adjacency equal %s" % (name, j + 1, seq, s["sym"] == msym), case))
                             break
+        # dynamic purity: every public function on fresh meshes and caller-owned arrays (complements the syntactic table)
+        pv = core.run_limited(self.purity, (), 300.0)
+        stats.case("purity", cls="purity-dynamic")
+        if pv[0] != "ok":
+            fails.append(core.Failure("correspondence", "dynamic purity pass", str(pv[:2])[:200], dict(kind="purity", name="purity")))
+        elif pv[1] is not None:
+            fails.append(core.Failure("correspondence", "dynamic purity: " + pv[1].clause, pv[1].what, dict(kind="purity", name="purity")))
         # constructors
         for (vs, ts, mx) in [((5, 3), (4, 3), 4), ((5, 3), (4, 3), 5), ((3, 5), (3, 4), 4), ((3, 5), (4, 3), 4), ((5, 3), (3, 4), 4), ((5, 4), (4, 3), 3),
                              ((5, 3), (4, 4), 3), ((4, 3), (4, 3), 3), ((3, 3), (3, 3), 2), ((5, 2), (4, 3), 3)]:
@@ -281,47 +288,83 @@ class Check(BaseCheck):
         return None
 
     def purity(self):
-        """every public non-underscore function leaves the vertices/elements of the meshes passed to it unchanged"""
+        """every public non-underscore function leaves the vertices / elements of the meshes passed to it unchanged and writes into
+        no array owned by the caller (functions, fields, spectra, index and value arrays)"""
+        from lapy import conformal
         v, t = gen.icosphere(1)
         t = t[:, [1, 0, 2]]                      # inward oriented: functions that 'fix' the orientation would show
-        rngf = np.sin(np.arange(len(v)))
         tv, tt = gen.cube5()
+        from .C19 import ellipsoid_y
+        v2, t2 = ellipsoid_y(gen.rng_for(0, "c20-purity"))
+        vp, tp = gen.grid(3, 3)
+
+        def args(m):
+            n, ne = len(m.v), len(m.t)
+            return dict(f=np.sin(np.arange(n)) + 0.1 * np.arange(n), X=np.cos(np.arange(3 * ne)).reshape(ne, 3), tf=np.cos(np.arange(ne)), ev=np.array([1.0, 2.0, 3.5]),
+                        ev2=np.array([0.5, 2.5, 3.0]), vids=np.array([0, 3]), didx=np.array([0, 5]), ddat=np.array([0.5, -1.0]), nidx=np.array([2]), ndat=np.array([0.3]),
+                        lv=np.array([0.1, 0.2]), fi=np.arange(n), Xi=np.arange(3 * ne).reshape(ne, 3) % 5, ts=np.array([0.1, 0.5]),
+                        evecs=np.cos(np.arange(n * 3)).reshape(n, 3), xs=np.array([1, 2]), emb=np.array(m.v) * 1.3 + 0.1)
         calls = [
-            ("TriaMesh queries", lambda m: [m.is_closed(), m.is_manifold(), m.is_oriented(), m.euler(), m.tria_areas(), m.area(), m.volume(), m.vertex_degrees(),
-                                            m.vertex_areas(), m.avg_edge_length(), m.tria_normals(), m.vertex_normals(), m.has_free_vertices(), m.tria_qualities(),
-                                            m.boundary_loops(), m.centroid(), m.edges(), m.curvature(2), m.curvature_tria(2), m.map_tfunc_to_vfunc(np.ones(len(m.t))),
-                                            m.map_vfunc_to_tfunc(rngf), m.smooth_vfunc(rngf, 2), m.level_length(m.v[:, 0], 0.1)], "tri"),
-            ("Solver", lambda m: Solver(m).eigs(3), "tri"),
-            ("compute_shapedna", lambda m: shapedna.compute_shapedna(m, k=3), "tri"),
-            ("normalize_ev surface", lambda m: shapedna.normalize_ev(m, np.array([1.0, 2.0]), "surface"), "tri"),
-            ("normalize_ev volume", lambda m: shapedna.normalize_ev(m, np.array([1.0, 2.0]), "volume"), "tri"),
-            ("normalize_ev geometry", lambda m: shapedna.normalize_ev(m, np.array([1.0, 2.0]), "geometry"), "tri"),
-            ("compute_gradient/divergence", lambda m: diffgeo.compute_divergence(m, diffgeo.compute_gradient(m, rngf)), "tri"),
-            ("compute_geodesic_f", lambda m: diffgeo.compute_geodesic_f(m, rngf), "tri"),
-            ("compute_rotated_f", lambda m: diffgeo.compute_rotated_f(m, rngf), "tri"),
-            ("tria_mean_curvature_flow", lambda m: diffgeo.tria_mean_curvature_flow(m, max_iter=2), "tri"),
-            ("heat.diffusion", lambda m: heat.diffusion(m, [0, 3], m=1.0), "tri"),
-            ("Solver aniso (oriented mesh)", lambda m: Solver(m, aniso=(2.0, 1.0), aniso_smooth=2), "tri"),
-            ("Solver aniso (inconsistently oriented mesh)", lambda m: Solver(m, aniso=2.0, aniso_smooth=2), "tri-mixed"),
-            ("heat.diffusion aniso (inconsistently oriented mesh)", lambda m: heat.diffusion(m, [0, 3], m=1.0, aniso=1.0), "tri-mixed"),
-            ("Solver (inconsistently oriented mesh)", lambda m: Solver(m, lump=True).eigs(3), "tri-mixed"),
-            ("normalize_ev volume (inconsistently oriented mesh)", lambda m: shapedna.normalize_ev(m, np.array([1.0, 2.0]), "volume"), "tri-mixed"),
-            ("TetMesh queries", lambda m: [m.is_oriented(), m.avg_edge_length(), m.boundary_tria(), m.has_free_vertices()], "tet"),
-            ("normalize_ev tet volume", lambda m: shapedna.normalize_ev(m, np.array([1.0, 2.0]), "volume"), "tet"),
-            ("Solver tet", lambda m: Solver(m).eigs(3), "tet"),
-            ("heat.diffusion tet", lambda m: heat.diffusion(m, [0], m=1.0), "tet"),
+            ("TriaMesh queries", lambda m, A: [m.is_closed(), m.is_manifold(), m.is_oriented(), m.euler(), m.tria_areas(), m.area(), m.volume(), m.vertex_degrees(),
+                                               m.vertex_areas(), m.avg_edge_length(), m.tria_normals(), m.vertex_normals(), m.has_free_vertices(), m.tria_qualities(),
+                                               m.boundary_loops(), m.centroid(), m.edges(), m.curvature(2), m.curvature_tria(2), m.construct_adj_dir_tidx()], "tri"),
+            ("map / smooth / level functions", lambda m, A: [m.map_tfunc_to_vfunc(A["tf"]), m.map_tfunc_to_vfunc(A["X"], True), m.map_vfunc_to_tfunc(A["f"]), m.smooth_vfunc(A["f"], 2),
+                                                            m.map_vfunc_to_tfunc(A["fi"]), m.smooth_vfunc(A["fi"], 1), m.level_length(A["f"], A["lv"]), m.level_length(A["f"], 0.1)], "tri"),
+            ("Solver.eigs", lambda m, A: Solver(m).eigs(3), "tri"),
+            ("Solver.poisson", lambda m, A: [Solver(m).poisson(A["f"], (A["didx"], A["ddat"]), (A["nidx"], A["ndat"])), Solver(m, lump=True).poisson(0.0, (A["didx"], A["ddat"]))], "tri"),
+            ("fem_tria_mass", lambda m, A: [Solver.fem_tria_mass(m), Solver.fem_tria_mass(m, True)], "tri"),
+            ("compute_shapedna", lambda m, A: shapedna.compute_shapedna(m, k=3), "tri"),
+            ("normalize_ev surface", lambda m, A: shapedna.normalize_ev(m, A["ev"], "surface"), "tri"),
+            ("normalize_ev volume", lambda m, A: shapedna.normalize_ev(m, A["ev"], "volume"), "tri"),
+            ("normalize_ev geometry", lambda m, A: shapedna.normalize_ev(m, A["ev"], "geometry"), "tri"),
+            ("reweight_ev / compute_distance", lambda m, A: [shapedna.reweight_ev(A["ev"]), shapedna.compute_distance(A["ev"], A["ev2"])], "tri"),
+            ("compute_gradient / divergence", lambda m, A: [diffgeo.compute_gradient(m, A["f"]), diffgeo.compute_divergence(m, A["X"]), diffgeo.tria_compute_divergence2(m, A["X"]),
+                                                          diffgeo.compute_gradient(m, A["fi"]), diffgeo.compute_divergence(m, A["Xi"])], "tri"),
+            ("compute_geodesic_f", lambda m, A: [diffgeo.compute_geodesic_f(m, A["f"]), diffgeo.tria_compute_geodesic_f(m, A["f"])], "tri"),
+            ("compute_rotated_f", lambda m, A: diffgeo.compute_rotated_f(m, A["f"]), "tri"),
+            ("tria_mean_curvature_flow", lambda m, A: diffgeo.tria_mean_curvature_flow(m, max_iter=2), "tri"),
+            ("tria_spherical_project", lambda m, A: diffgeo.tria_spherical_project(m, flow_iter=2), "tri-fine"),
+            ("heat.diffusion", lambda m, A: heat.diffusion(m, A["vids"], m=1.0), "tri"),
+            ("heat.kernel / diagonal", lambda m, A: [heat.kernel(A["ts"], 1, A["evecs"], A["ev"], 3), heat.diagonal(A["ts"], A["xs"], A["evecs"], A["ev"], 2)], "tri"),
+            ("Solver aniso (oriented mesh)", lambda m, A: Solver(m, aniso=(2.0, 1.0), aniso_smooth=2), "tri"),
+            ("Solver aniso (inconsistently oriented mesh)", lambda m, A: Solver(m, aniso=2.0, aniso_smooth=2), "tri-mixed"),
+            ("heat.diffusion aniso (inconsistently oriented mesh)", lambda m, A: heat.diffusion(m, A["vids"], m=1.0, aniso=1.0), "tri-mixed"),
+            ("Solver (inconsistently oriented mesh)", lambda m, A: Solver(m, lump=True).eigs(3), "tri-mixed"),
+            ("normalize_ev volume (inconsistently oriented mesh)", lambda m, A: shapedna.normalize_ev(m, A["ev"], "volume"), "tri-mixed"),
+            ("conformal: beltrami / stereographic", lambda m, A: [conformal.beltrami_coefficient(m, A["emb"]), conformal.stereographic(A["emb"] / np.linalg.norm(A["emb"], axis=1)[:, None]),
+                                                                 conformal.inverse_stereographic(A["emb"][:, 0] + 1j * A["emb"][:, 1])], "tri-planar"),
+            ("spherical_conformal_map + Moebius correction", lambda m, A: conformal.mobius_area_correction_spherical(m, conformal.spherical_conformal_map(m)), "tri-fine"),
+            ("write_vtk", lambda m, A: m.write_vtk(A["path"]), "tri"),
+            ("TetMesh queries", lambda m, A: [m.is_oriented(), m.avg_edge_length(), m.boundary_tria(), m.boundary_tria(A["tf"]), m.has_free_vertices()], "tet"),
+            ("normalize_ev tet volume", lambda m, A: shapedna.normalize_ev(m, A["ev"], "volume"), "tet"),
+            ("Solver tet", lambda m, A: [Solver(m).eigs(3), Solver(m).poisson(A["f"], (A["didx"], A["ddat"]))], "tet"),
+            ("tet gradient / divergence", lambda m, A: [diffgeo.compute_gradient(m, A["f"]), diffgeo.compute_divergence(m, A["X"]), diffgeo.compute_gradient(m, A["fi"])], "tet"),
+            ("tet geodesic", lambda m, A: diffgeo.compute_geodesic_f(m, A["f"]), "tet"),
+            ("heat.diffusion tet", lambda m, A: heat.diffusion(m, A["vids"][:1], m=1.0), "tet"),
+            ("TetMesh.write_vtk", lambda m, A: m.write_vtk(A["path"]), "tet"),
         ]
-        for name, fn, kind in calls:
-            with core.quiet():
-                tmix = t.copy(); tmix[::3] = tmix[::3][:, [0, 2, 1]]
-                m = TriaMesh(v, t) if kind == "tri" else (TriaMesh(v, tmix) if kind == "tri-mixed" else TetMesh(tv, tt))
-            v0, t0 = np.array(m.v, copy=True), np.array(m.t, copy=True)
-            try:
+        import tempfile, shutil
+        d = tempfile.mkdtemp(prefix="lapyverif")
+        try:
+            for name, fn, kind in calls:
                 with core.quiet():
-                    fn(m)
-            except Exception as e:  # noqa: BLE001
-                if name == "TriaMesh queries":
-                    return core.Violation("purity", "query raised %s: %s" % (type(e).__name__, e), dict(kind="purity", call=name))
-            if not (np.array_equal(m.v, v0) and np.array_equal(m.t, t0)):
-                return core.Violation("purity", "%s modified the mesh passed to it" % name, dict(kind="purity", call=name, input_class=name))
+                    tmix = t.copy(); tmix[::3] = tmix[::3][:, [0, 2, 1]]
+                    m = {"tri": lambda: TriaMesh(v, t), "tri-mixed": lambda: TriaMesh(v, tmix), "tri-fine": lambda: TriaMesh(v2, t2), "tri-planar": lambda: TriaMesh(vp, tp), "tet": lambda: TetMesh(tv, tt)}[kind]()
+                v0, t0 = np.array(m.v, copy=True), np.array(m.t, copy=True)
+                A = args(m)
+                A0 = {k: np.array(a, copy=True) for k, a in A.items()}
+                A["path"] = d + "/x.vtk"
+                try:
+                    with core.quiet():
+                        fn(m, A)
+                except Exception as e:  # noqa: BLE001
+                    if name == "TriaMesh queries":
+                        return core.Violation("purity", "query raised %s: %s" % (type(e).__name__, e), dict(kind="purity", call=name))
+                if not (np.array_equal(m.v, v0) and np.array_equal(m.t, t0)):
+                    return core.Violation("purity", "%s modified the mesh passed to it" % name, dict(kind="purity", call=name, input_class=name))
+                for k, a0 in A0.items():
+                    if A[k].dtype != a0.dtype or not np.array_equal(A[k], a0):
+                        return core.Violation("caller-arrays", "%s wrote into the array `%s` owned by the caller" % (name, k), dict(kind="purity", call=name))
+        finally:
+            shutil.rmtree(d, ignore_errors=True)
         return None
